@@ -76,6 +76,12 @@ def Stmt.tag : Stmt → Tag
   | .simple _ t _ => t
   | _ => .other
 
+/-- `Stmt::Expr(_) | Stmt::Decl(_)`: statements that never record an end of their own; the metadata under their
+position belongs to a function / arrow / class they start with (keys are start positions) -/
+def Stmt.isDeclOrExpr : Stmt → Bool
+  | .simple _ (.fnDecl _) _ | .simple _ .varNoInit _ | .simple _ .tsDecl _ | .simple _ .decl _ | .simple _ .exprStmt _ => true
+  | _ => false
+
 inductive End
   | forced (ret throw_ inf : Bool)
   | brk
@@ -231,9 +237,14 @@ def throwEffect (a : A) : A :=
   | none | some .cont => { a with sc := { a.sc with mayThrow := true } }
   | _ => a
 
-/-- the tail of `visit_while_stmt`'s closure, after the body has been visited -/
-def whileTail (testTrue : Bool) (bp : Nat) (a : A) : A :=
-  let er := a.info.endAt bp
+/-- `get_stmt_end_reason`: the end recorded under a statement's position, unless the statement is an expression or
+declaration statement (`de`) -/
+def stmtEnd (de : Bool) (info : Info) (bp : Nat) : Option End := if de then none else info.endAt bp
+
+/-- the tail of `visit_while_stmt`'s closure, after the body has been visited (`de` = the body is an expression or
+declaration statement) -/
+def whileTail (testTrue de : Bool) (bp : Nat) (a : A) : A :=
+  let er := stmtEnd de a.info bp
   let retOrThrow := isForcedEnd er
   let hasBreak := a.sc.foundBreak == some none
   if testTrue && retOrThrow && !hasBreak then
@@ -243,8 +254,8 @@ def whileTail (testTrue : Bool) (bp : Nat) (a : A) : A :=
   else if testTrue && !hasBreak then (markAsEnd bp forcedInf a).setEnd (some forcedInf)
   else (markAsEnd bp .cont a).setEnd (some .cont)
 
-def doWhileTail (testTrue : Bool) (bp : Nat) (a : A) : A :=
-  let er := a.info.endAt bp
+def doWhileTail (testTrue de : Bool) (bp : Nat) (a : A) : A :=
+  let er := stmtEnd de a.info bp
   let retOrThrow := isForcedEnd er
   let infinite := testTrue && a.sc.foundBreak.isNone
   let hasBreak := a.sc.foundBreak == some none
@@ -266,16 +277,16 @@ def doWhileAfter (p bp : Nat) (a : A) : A :=
 def forEnters (hasTest testTrue : Bool) (a : A) : Bool := !(a.sc.foundBreak == some none) && (!hasTest || testTrue)
 
 /-- the end such a `for` loop gets: the body's forced end, else "infinite loop" -/
-def forEnd (bp : Nat) (a : A) : End :=
-  match a.info.endAt bp with
+def forEnd (de : Bool) (bp : Nat) (a : A) : End :=
+  match stmtEnd de a.info bp with
   | some (.forced r t i) => .forced r t i
   | _ => forcedInf
 
 /-- the tail of `visit_for_stmt`'s closure.  (In the code: `if !has_break { .. mark_as_end(n.start(), end); forced_end = Some(end) }`
 then `if forced_end.is_none() || has_break { mark_as_end(body, Continue); end = Continue }` — the second block runs exactly
 when the first did not.) -/
-def forTail (p bp : Nat) (hasTest testTrue : Bool) (a : A) : A :=
-  if forEnters hasTest testTrue a then markAsEnd p (forEnd bp a) a
+def forTail (p bp : Nat) (de hasTest testTrue : Bool) (a : A) : A :=
+  if forEnters hasTest testTrue a then markAsEnd p (forEnd de bp a) a
   else (markAsEnd bp .cont a).setEnd (some .cont)
 
 def forInOfTail (bp : Nat) (a : A) : A := (markAsEnd bp .cont a).setEnd (some .cont)
@@ -344,27 +355,27 @@ def visitStmt : Stmt → A → A
     let a := visitKids test a
     let prev := a.sc.end_
     let a := withChild .ifK c.pos (fun x => sobTail c (visitStmt c x)) a
-    let cr := a.info.endAt c.pos
+    let cr := stmtEnd c.isDeclOrExpr a.info c.pos
     match alt with
     | some al =>
       let a := withChild .ifK al.pos (fun x => sobTail al (visitStmt al x)) a
-      let ar := a.info.endAt al.pos
+      let ar := stmtEnd al.isDeclOrExpr a.info al.pos
       ifJoin p cr ar a
     | none => (markAsEnd p .cont a).setEnd prev
   | .whileS p test tt body, a =>
     let a := { a with info := a.info.setUnreach p (unreachableFlag a.sc .other) }
-    let a := withChild .loop body.pos (fun x => whileTail tt body.pos (visitStmt body x)) a
+    let a := withChild .loop body.pos (fun x => whileTail tt body.isDeclOrExpr body.pos (visitStmt body x)) a
     visitKids test a
   | .doWhileS p body test tt, a =>
     let a := { a with info := a.info.setUnreach p (unreachableFlag a.sc .other) }
-    let a := withChild .loop body.pos (fun x => doWhileTail tt body.pos (visitStmt body x)) a
+    let a := withChild .loop body.pos (fun x => doWhileTail tt body.isDeclOrExpr body.pos (visitStmt body x)) a
     visitKids test (doWhileAfter p body.pos a)
   | .forS p init update test hasTest tt body, a =>
     let a := { a with info := a.info.setUnreach p (unreachableFlag a.sc .other) }
     let a := visitKids init a
     let a := visitKids update a
     let a := visitKids test a
-    withChild .loop body.pos (fun x => forTail p body.pos hasTest tt (visitStmt body x)) a
+    withChild .loop body.pos (fun x => forTail p body.pos body.isDeclOrExpr hasTest tt (visitStmt body x)) a
   | .forInOf p left right body, a =>
     let a := { a with info := a.info.setUnreach p (unreachableFlag a.sc .other) }
     let a := visitKids left a
